@@ -1,4 +1,5 @@
 import Gpc.Model.CaseFull
+import Gpc.Model.Utf
 /-
 Model of string comparison and sorting anchored by C13 (src/unicode.c gp_str_compare, gp_str_sort
 and their comparators), over lists of code points (the operands are valid UTF-8).
@@ -19,6 +20,21 @@ def cmpCps : List Nat → List Nat → Int
   | [], _ :: _ => -1
   | _ :: _, [] => 1
   | a :: as, b :: bs => if a = b then cmpCps as bs else (a : Int) - (b : Int)
+
+/-- the byte loop of `gp_str_compare` without fold / collate, as the C code runs it: decode the code point at the
+same byte position of both strings, let the first difference decide, advance by the length of the first string's
+code point; when one string is exhausted the remaining lengths decide (both have consumed the same number of
+bytes, so that is the difference of the total lengths).  `none` = a byte that cannot be decoded. -/
+def cmpBytes (s1 s2 : List UInt8) : (fuel : Nat) → Option Int
+  | 0 => none
+  | fuel + 1 =>
+    if s1.isEmpty || s2.isEmpty then some ((s1.length : Int) - (s2.length : Int)) else
+    match Gpc.Utf.decodeU8 s1, Gpc.Utf.decodeU8 s2 with
+    | some (c1, n1), some (c2, _) =>
+      if c1 ≠ c2 then some ((c1 : Int) - (c2 : Int))
+      else if n1 = 0 then none
+      else cmpBytes (s1.drop n1) (s2.drop n1) fuel
+    | _, _ => none
 
 /-- what `wcscmp` sees: the wide string up to its terminator -/
 def cstr (w : List Nat) : List Nat := w.takeWhile (· ≠ 0)
